@@ -12,58 +12,143 @@ import (
 )
 
 type blockAnchors struct {
-	worker   *ssa.Function // has a func() respValue and a func() *wakeSignal parameter
-	opParam  *ssa.Parameter
-	regParam *ssa.Parameter
-	selectFn *ssa.Function // contains the select (worker or a closure of it)
+	worker   *ssa.Function // the function with the register / attempt / wait cycle
+	selectFn *ssa.Function // contains the select (the worker, a closure of it, or a function it calls)
 	sel      *ssa.Select
 	wakeFn   *ssa.Function          // sends on wakeSignal.ready
 	wakeRel  map[*ssa.Function]bool // release wrappers that wake before unlocking
 	fReady   *types.Var
 	errs     []string
+	c        *Ctx
+}
+
+// isReg: the instruction registers the waiter — a call (through a parameter, a closure, an interface or a helper) that
+// yields the *wakeSignal the command will wait on.
+func (a *blockAnchors) isReg(in ssa.Instruction) (*ssa.Call, bool) {
+	call, ok := in.(*ssa.Call)
+	if !ok {
+		return nil, false
+	}
+	res := call.Call.Signature().Results()
+	if res.Len() == 1 && a.c.isPkgType(res.At(0).Type(), "wakeSignal") {
+		if _, isPtr := res.At(0).Type().(*types.Pointer); isPtr {
+			return call, true
+		}
+	}
+	return nil, false
+}
+
+// isOp: the instruction is an attempt of the command — a call of a function value (parameter, closure, interface
+// method) that yields the reply.
+func (a *blockAnchors) isOp(in ssa.Instruction) (*ssa.Call, bool) {
+	call, ok := in.(*ssa.Call)
+	if !ok || call.Call.StaticCallee() != nil {
+		return nil, false
+	}
+	if _, isB := call.Call.Value.(*ssa.Builtin); isB {
+		return nil, false
+	}
+	res := call.Call.Signature().Results()
+	if res.Len() == 1 && a.c.isPkgType(res.At(0).Type(), "respValue") && call.Call.Signature().Params().Len() == 0 {
+		return call, true
+	}
+	return nil, false
+}
+
+// reachesSelect: calling g ends up in the function that holds the blocking select (g itself, a closure made in place, or
+// a function it calls, two levels).
+func (a *blockAnchors) reachesSelect(g *ssa.Function, depth int) bool {
+	if g == nil || depth > 2 {
+		return false
+	}
+	if g == a.selectFn {
+		return true
+	}
+	for _, in := range instrsOf(g) {
+		if call, ok := in.(*ssa.Call); ok {
+			var h *ssa.Function
+			if mc, ok := call.Call.Value.(*ssa.MakeClosure); ok {
+				h, _ = mc.Fn.(*ssa.Function)
+			} else {
+				h = call.Call.StaticCallee()
+			}
+			if h != nil && h != g && a.c.InPkg(h) && a.reachesSelect(h, depth+1) {
+				return true
+			}
+		}
+	}
+	return false
+}
+
+// waitsIn: the instructions of w that perform the wait (the select itself, or the call that reaches it).
+func (a *blockAnchors) waitsIn(w *ssa.Function) []ssa.Instruction {
+	var out []ssa.Instruction
+	if a.selectFn == w {
+		return []ssa.Instruction{a.sel}
+	}
+	for _, in := range instrsOf(w) {
+		if call, ok := in.(*ssa.Call); ok {
+			var h *ssa.Function
+			if mc, ok := call.Call.Value.(*ssa.MakeClosure); ok {
+				h, _ = mc.Fn.(*ssa.Function)
+			} else {
+				h = call.Call.StaticCallee()
+			}
+			if h != nil && a.c.InPkg(h) && a.reachesSelect(h, 0) {
+				out = append(out, in)
+			}
+		}
+	}
+	return out
 }
 
 func (c *Ctx) blocking() *blockAnchors {
-	a := &blockAnchors{wakeRel: map[*ssa.Function]bool{}}
+	a := &blockAnchors{wakeRel: map[*ssa.Function]bool{}, c: c}
 	a.fReady = c.Field("wakeSignal", "ready")
 	if a.fReady == nil {
 		a.errs = append(a.errs, "wakeSignal.ready not found")
 		return a
 	}
+	// the blocking wait: the select with an arm on a wake signal's channel
 	for _, fn := range c.SrcFuncs() {
-		for _, p := range fn.Params {
-			sig, ok := p.Type().Underlying().(*types.Signature)
-			if !ok || sig.Params().Len() != 0 || sig.Results().Len() != 1 {
-				continue
-			}
-			if c.isPkgType(sig.Results().At(0).Type(), "wakeSignal") {
-				a.worker, a.regParam = fn, p
-			}
-		}
-	}
-	if a.worker == nil {
-		a.errs = append(a.errs, "no function takes a registration callback returning *wakeSignal")
-		return a
-	}
-	for _, p := range a.worker.Params {
-		if sig, ok := p.Type().Underlying().(*types.Signature); ok && sig.Params().Len() == 0 && sig.Results().Len() == 1 && c.isPkgType(sig.Results().At(0).Type(), "respValue") {
-			a.opParam = p
-		}
-	}
-	if a.opParam == nil {
-		a.errs = append(a.errs, "the blocking worker has no attempt callback returning respValue")
-	}
-	cands := []*ssa.Function{a.worker}
-	cands = append(cands, a.worker.AnonFuncs...)
-	for _, f := range cands {
-		for _, in := range instrsOf(f) {
+		for _, in := range instrsOf(fn) {
 			if s, ok := in.(*ssa.Select); ok {
-				a.selectFn, a.sel = f, s
+				for _, st := range s.States {
+					if _, f := loadedField(st.Chan); f == a.fReady {
+						a.selectFn, a.sel = fn, s
+					}
+				}
 			}
 		}
 	}
 	if a.sel == nil {
-		a.errs = append(a.errs, "no select in the blocking worker")
+		a.errs = append(a.errs, "no select waits on a wake signal (no select in the blocking worker)")
+		return a
+	}
+	// the worker: registers (a call yielding *wakeSignal), attempts (a call of a function value yielding the reply) and
+	// waits (reaches the select) — the function that does all three, nearest to the select
+	best := -1
+	for _, fn := range c.SrcFuncs() {
+		regs, ops := 0, 0
+		for _, in := range instrsOf(fn) {
+			if _, ok := a.isReg(in); ok {
+				regs++
+			}
+			if _, ok := a.isOp(in); ok {
+				ops++
+			}
+		}
+		if regs == 0 || ops == 0 || len(a.waitsIn(fn)) == 0 {
+			continue
+		}
+		score := regs + ops
+		if score > best {
+			best, a.worker = score, fn
+		}
+	}
+	if a.worker == nil {
+		a.errs = append(a.errs, "no function registers a wake signal, attempts the command and waits (no function takes a registration callback returning *wakeSignal)")
+		return a
 	}
 	for _, fn := range c.SrcFuncs() {
 		for _, in := range instrsOf(fn) {
@@ -88,6 +173,11 @@ func (c *Ctx) blocking() *blockAnchors {
 			}
 			if op, cls, _ := lm.lockOp(call); op < 0 && cls == lm.DB {
 				unlockCall = in
+			}
+			// … or through the ordinary release wrapper (`wake; dsc.unlock()`)
+			if g := call.Call.StaticCallee(); g != nil && g != fn && lm.fl[g] != nil && (lm.fl[g].removes.has(lm.DB) || lm.fl[g].condRemoves.has(lm.DB)) && !c.M.Reach(g)[a.wakeFn] &&
+				len(fn.Blocks) <= 6 && fn.Signature.Recv() != nil && g.Signature.Recv() != nil && types.Identical(fn.Signature.Recv().Type(), g.Signature.Recv().Type()) {
+				unlockCall = in // a small method that wakes and then calls its sibling release method
 			}
 			for _, g := range c.Callees(call) {
 				if g == a.wakeFn || (c.InPkg(g) && c.M.Reach(g)[a.wakeFn] && len(g.Blocks) <= 3) {
@@ -207,26 +297,15 @@ func ruleC11Protocol(c *Ctx) {
 	w := a.worker
 	var regs, ops []*ssa.Call
 	for _, in := range instrsOf(w) {
-		if call, ok := callsParam(in, a.regParam); ok {
+		if call, ok := a.isReg(in); ok {
 			regs = append(regs, call)
 		}
-		if call, ok := callsParam(in, a.opParam); ok {
+		if call, ok := a.isOp(in); ok {
 			ops = append(ops, call)
 		}
 	}
-	// the wait: the select, or the call of the closure that contains it
-	var waits []ssa.Instruction
-	if a.selectFn == w {
-		waits = append(waits, a.sel)
-	} else {
-		for _, in := range instrsOf(w) {
-			if call, ok := in.(*ssa.Call); ok {
-				if mc, ok := call.Call.Value.(*ssa.MakeClosure); ok && mc.Fn == a.selectFn {
-					waits = append(waits, in)
-				}
-			}
-		}
-	}
+	// the wait: the select, or the call (of a closure made in place, of a named function) that reaches it
+	waits := a.waitsIn(w)
 	if len(regs) == 0 || len(ops) == 0 || len(waits) == 0 {
 		c.S.Undecided("R-C11-protocol", fnName(w)+":shape", c.Pos(w.Pos()), fmt.Sprintf("registrations=%d attempts=%d waits=%d", len(regs), len(ops), len(waits)))
 		return
@@ -272,7 +351,7 @@ func ruleC11Protocol(c *Ctx) {
 		c.S.OK("R-C11-protocol", key, c.Pos(c.InstrPos(wait)), "the wake path leaves the waiter linked")
 	} else {
 		// every cycle through the wait must pass a registration call
-		isReg := func(in ssa.Instruction) bool { _, ok := callsParam(in, a.regParam); return ok }
+		isReg := func(in ssa.Instruction) bool { _, ok := a.isReg(in); return ok }
 		cm := &CoverModel{m: c.M, mm: c.M.Muts(), isEvent: isReg, always: map[*ssa.Function]bool{}}
 		// can we go from after the wait back to the wait without registering?
 		back := false
@@ -329,17 +408,10 @@ func ruleC11Protocol(c *Ctx) {
 				if !c.InPkg(g) {
 					continue
 				}
-				// a function (or deferred closure) that reaches a close(ws.ready)
-				for f := range c.M.Reach(g) {
-					for _, in2 := range instrsOf(f) {
-						if call, ok := in2.(*ssa.Call); ok {
-							if b, ok := call.Call.Value.(*ssa.Builtin); ok && b.Name() == "close" {
-								if _, fld := loadedField(call.Call.Args[0]); fld == a.fReady {
-									return true
-								}
-							}
-						}
-					}
+				// a function (or deferred closure) every path of which ends up closing ws.ready — a disposal that is
+				// skipped under a condition (“only when the command has no reply”) leaves registrations behind
+				if alwaysDisposes(c, a, g, 0) {
+					return true
 				}
 			}
 			return false
@@ -351,6 +423,46 @@ func ruleC11Protocol(c *Ctx) {
 			c.S.OK("R-C11-protocol", key, c.Pos(r.Pos()), "disposal of the wake signal is deferred/called on every path after the registration")
 		}
 	}
+}
+
+// alwaysDisposes: every path from the entry of g to a return passes close(ws.ready), directly or through a static callee
+// that always does (depth 3).
+func alwaysDisposes(c *Ctx, a *blockAnchors, g *ssa.Function, depth int) bool {
+	if g == nil || g.Blocks == nil || depth > 3 {
+		return false
+	}
+	hits := func(b *ssa.BasicBlock) bool {
+		for _, in := range b.Instrs {
+			call, ok := in.(*ssa.Call)
+			if !ok {
+				continue
+			}
+			if bi, ok := call.Call.Value.(*ssa.Builtin); ok && bi.Name() == "close" {
+				if _, fld := loadedField(call.Call.Args[0]); fld == a.fReady {
+					return true
+				}
+			}
+			if h := call.Call.StaticCallee(); h != nil && h != g && c.InPkg(h) && alwaysDisposes(c, a, h, depth+1) {
+				return true
+			}
+		}
+		return false
+	}
+	seen := map[*ssa.BasicBlock]bool{}
+	work := []*ssa.BasicBlock{g.Blocks[0]}
+	for len(work) > 0 {
+		b := work[len(work)-1]
+		work = work[:len(work)-1]
+		if seen[b] || hits(b) {
+			continue
+		}
+		seen[b] = true
+		if _, isRet := b.Instrs[len(b.Instrs)-1].(*ssa.Return); isRet {
+			return false
+		}
+		work = append(work, b.Succs...)
+	}
+	return true
 }
 
 const textC11Wake = "R-C11-wake: (in-lock) the release wrapper that wakes waiters does so before it releases the database mutex, and the wake channel has constant capacity ≥ 1 so the send cannot block under the lock; (push-wakes) every function that inserts into a list it may have just created leaves its critical section through that wrapper and records the number of inserted elements"
@@ -506,6 +618,22 @@ func ruleC11Wake(c *Ctx) {
 			}
 			g := cc.Common().StaticCallee()
 			if g == nil {
+				// the release function an acquirer handed back (`uk, release := dsc.lockedProducer(key); defer release()`)
+				if g0 := scopedOrigin(cc.Common().Value); g0 != nil {
+					if gl := lm.fl[g0]; gl != nil && gl.scoped && gl.scopedRel.has(lm.DB) {
+						allWake := len(gl.scopedTargets) > 0 && gl.scopedDirect == 0
+						for _, t := range gl.scopedTargets {
+							if !releasesOnlyThroughWake(t, 0) {
+								allWake = false
+							}
+						}
+						if allWake {
+							viaWake = true
+						} else {
+							plain = true
+						}
+					}
+				}
 				continue
 			}
 			fl := lm.fl[g]
@@ -680,7 +808,7 @@ func ruleC12(c *Ctx) {
 	// (3) no waiting under EXEC: registration call dominated by the multi==false edge
 	w := a.worker
 	for _, in := range instrsOf(w) {
-		call, ok := callsParam(in, a.regParam)
+		call, ok := a.isReg(in)
 		if !ok {
 			continue
 		}
@@ -734,11 +862,16 @@ func ruleC12(c *Ctx) {
 	// (5) closing a connection reaches the unblock
 	var unblock *ssa.Function
 	for _, fn := range c.SrcFuncs() {
-		if fn.Signature.Recv() != nil && c.isPkgType(fn.Signature.Recv().Type(), "clientState") {
+		// a method of clientState, or a closure made inside one (the post may sit in a retry closure)
+		method := fn
+		for method.Parent() != nil {
+			method = method.Parent()
+		}
+		if method.Signature.Recv() != nil && c.isPkgType(method.Signature.Recv().Type(), "clientState") {
 			for _, in := range instrsOf(fn) {
 				if s, ok := in.(*ssa.Send); ok {
 					if _, isChan := s.Chan.Type().Underlying().(*types.Chan); isChan && derivesFieldChan(c, s.Chan, "clientState", "unblockCh") {
-						unblock = fn
+						unblock = method
 					}
 				}
 			}
